@@ -229,6 +229,9 @@ def body(chk):
     from harness import sessioncheck
 
     sessioncheck.standard(chk)
+    from harness import tlaps
+
+    tlaps.prove(chk)
     chk.finish(
         rule="pairs = all unordered pairs of rpc values per product x filesystem (compared through a common reference "
              "tree); distinct = (level, geometry, rpc1, rpc2); non-trivial = all (each compares two complete trees)",
